@@ -1,4 +1,5 @@
 import Summer.Generated.Rates
+import Summer.Generated.BackendSrc
 import Summer.Proofs.Rates
 import Summer.Proofs.Aggregate
 /-
@@ -416,6 +417,15 @@ theorem get_infectious_multipliers_eq (b : Backend) (hp : b.procType.isSome = tr
 
 end multipliers_tie
 
+section backend
+variable {α : Type}
+
+/-- `ModelBackend.prepare_structural` (with the helpers it calls): the index tables the runner reads are those of `Run.prepare`, the
+definition `C01.backend_wf`, `prepare_tables_wf` and every `prepare m = .ok b` hypothesis of the property theorems are about -/
+theorem prepare_structural_eq (m : Model α) : Generated.BackendSrc.prepare_structural m = prepare m := rfl
+
+end backend
+
 section capstone
 variable {α : Type} [Zero α] [One α] [Add α] [Sub α] [Mul α] [Div α] [LT α] [DecidableLT α]
 
@@ -503,6 +513,7 @@ example : get_flow_weights (α := Rat) (γ := Unit) (κ := String) (fun _ k => i
       [("a", [0, 2]), ("b", [2])] () [1, 2, 3, 4] = [7, 2, 9, 4] := by
   decide +kernel
 
+#print axioms prepare_structural_eq
 #print axioms clean_compartments_eq
 #print axioms get_force_of_infection_eq
 #print axioms application_matrix_eq
